@@ -255,6 +255,12 @@ func (m *Muxer) makeReliableTubeWithID(tType TubeType, tubeID byte, req bool) (*
 		m.log.WithField("tube", tubeID).Debug("tried to make tube while muxer is stopping")
 		return nil, ErrMuxerStopping
 	}
+	if !req && len(m.tubeQueue) == cap(m.tubeQueue) {
+		// Nobody is accepting. Refusing the tube (the peer repeats its request) keeps
+		// the receiver from blocking on the queue while it holds the muxer lock.
+		m.log.WithField("tube", tubeID).Warn("accept queue full. refusing tube")
+		return nil, ErrAcceptQueueFull
+	}
 	tubeLog := m.log.WithFields(logrus.Fields{
 		"tube":     tubeID,
 		"reliable": true,
@@ -315,6 +321,11 @@ func (m *Muxer) makeUnreliableTubeWithID(tType TubeType, tubeID byte, req bool) 
 	if state != muxerRunning {
 		m.log.WithField("tube", tubeID).Debug("tried to make tube while muxer is stopping")
 		return nil, ErrMuxerStopping
+	}
+	if !req && len(m.tubeQueue) == cap(m.tubeQueue) {
+		// See makeReliableTubeWithID.
+		m.log.WithField("tube", tubeID).Warn("accept queue full. refusing tube")
+		return nil, ErrAcceptQueueFull
 	}
 	tube := &Unreliable{
 		tType:        tType,
